@@ -79,7 +79,7 @@ def _run(ck, hb, quick, replay):
     items = [("witness 3-layer sphere (radii from seed 31337, sigma 0.33/0.0125/0.33)", witness_model(),
               [(None, (0.0, 0.0, 0.0), s, 1.0) for s in SCALES + [64.0, 128.0]] + [(None, (0.0, 0.0, 0.0), 1.0, k) for k in CONDS])]
     nmod = 5 if quick else 30
-    kinds = ["nested", "split", "inclusions", "nested", "nonconductive", "nested"]
+    kinds = ["nested", "split", "inclusions", "isolated", "nonconductive", "nested"]
     for n in range(nmod):
         kd = kinds[n % len(kinds)]
         c = hc.make_case(ck.rng, 1 if (quick or n % 5) else 2, (kd,))
@@ -114,7 +114,7 @@ def _run(ck, hb, quick, replay):
                   singular_pairs_compared_at_operator_level=stats.get("singular", 0), threshold_witnesses=wres,
                   in_place_conductivity_sweep=dict(models=len(sw_items), factors=list(hc.SWEEP), steps=stats.get("sweep_steps", 0), level=stats.get("sweep_level", {})),
                   kernel_mismatches=kb1 + kb2, traces_validated_against_impl=len(recs) + nk)
-    ck.cov["selfcheck_verdict_flips_not_raised"] = len(hc.SELFCHECK_FLIPS)   # see headcases.compare_decisions
+    ck.cov["selfcheck_verdict_flips"] = len(hc.SELFCHECK_FLIPS)   # raised as decision violations, see headcases.compare_decisions
     ck.cov["trusted_base"] += ["C++ harness harness/h_c02.cpp (whole pipeline in memory + direct kernel calls on the rebuilt working tree)",
                                "Python generators lib/models.py, lib/headcases.py; scaling by decimal factors perturbs the inputs by one rounding each (the rescaled model is the nearest double model)"]
     ck.assumptions += ["rounding and conditioning are measured, not proved (tolerance 1e-9 relative Frobenius; measured level in coverage.measured_rounding_level)",
